@@ -154,7 +154,7 @@ def write_evidence(ctx, t0, trusted, nviol, nknown, nerr):
         for i in o.instances:
             insts.append((o.oid, i))
             k = (o.oid, i["what"], json.dumps(i["detail"], default=str, sort_keys=True))
-            if i["nontrivial"] and k not in seen:
+            if i["nontrivial"] and i["detail"] not in (None, {}, [], "") and k not in seen:
                 nontrivial += 1
             seen.add(k)
     samples = []
@@ -174,8 +174,8 @@ def write_evidence(ctx, t0, trusted, nviol, nknown, nerr):
             "evaluations": len(insts),
             "distinct_nontrivial": nontrivial,
             "rule": "an evaluation = one obligation instance (a construct of the source: FSM state, guarded statement, table "
-                    "entry, parameter valuation) checked against its rule; non-trivial = the instance has a non-empty guard / "
-                    "non-constant term / concrete table entry, distinct by (obligation, construct, detail)",
+                    "entry, parameter valuation) checked against its rule; non-trivial = the rule marked the instance as such AND it "
+                    "carries a non-empty detail record (resolved guard set / term / table entry / bit map); distinct by (obligation, construct, detail)",
             "samples": samples[:40] or [{"note": "no instance"}],
             "obligations": len(ctx.obligations),
             "discharged": discharged,
